@@ -11,53 +11,66 @@
 EXTENDS Integers, Sequences, FiniteSets, TLC, Json
 
 CONSTANTS MaxLen,      \* bound on the history length
-          Deviation    \* "none" | "resetKeepsRefs" | "resetKeepsDefs" | "encodeSkipsReset"
+          Deviation    \* "none" | "resetKeepsRefs" | "resetKeepsDefs" | "resetKeepsCount" | "encodeSkipsReset"
 
-Vals == 1..4
-Classes(v) == CASE v = 1 -> {} [] v = 2 -> {"A"} [] v = 3 -> {"A"} [] v = 4 -> {"A", "B"}
-Objects(v) == CASE v = 1 -> {} [] v = 2 -> {} [] v = 3 -> {"p"} [] v = 4 -> {"p"}     \* stable pointer identities
+Vals == 1..6
+(* 1 scalar; 2 struct A by value; 3 pointer p to an A; 4 struct B holding p; *)
+(* 5 an empty list (takes a reference ordinal, has no identity);            *)
+(* 6 a list holding p twice (its second mention is a back-reference)        *)
+Classes(v) == CASE v = 1 -> {} [] v = 2 -> {"A"} [] v = 3 -> {"A"} [] v = 4 -> {"A", "B"} [] v = 5 -> {} [] v = 6 -> {"A"}
+Objects(v) == CASE v \in {1, 2, 5} -> {} [] v \in {3, 4, 6} -> {"p"}     \* stable pointer identities
+Ordinals(v) == CASE v = 1 -> 0 [] v = 2 -> 1 [] v = 3 -> 1 [] v = 4 -> 2 [] v = 5 -> 1 [] v = 6 -> 2   \* ordinals consumed
+HasBackRef(v) == v = 6
 
-VARIABLES ecls, erefs,      \* encoder tables
+VARIABLES ecls, erefs, ecnt, \* encoder tables: definitions sent, objects registered, ordinals handed out
           dcls, drefs,      \* decoder tables (what earlier values of the stream defined)
           hist,
           fin               \* the history is complete (generation only)
-vars == <<ecls, erefs, dcls, drefs, hist, fin>>
+vars == <<ecls, erefs, ecnt, dcls, drefs, hist, fin>>
 
 (* what a streaming write of v emits, given the tables *)
-Render(v, cls, refs) == [defs |-> Classes(v) \ cls, backrefs |-> Objects(v) \cap refs]
-Fresh(v) == Render(v, {}, {})
+(* a back-reference inside v is written as an ordinal counted from the stream's start *)
+Render(v, cls, refs, cnt) == [defs |-> Classes(v) \ cls, backrefs |-> Objects(v) \cap refs,
+                              base |-> IF HasBackRef(v) THEN cnt ELSE 0]
+Fresh(v) == Render(v, {}, {}, 0)
 
 ResetEnc(cls, refs) == CASE Deviation = "resetKeepsRefs" -> <<{}, refs>>
                          [] Deviation = "resetKeepsDefs" -> <<cls, {}>>
                          [] OTHER -> <<{}, {}>>
+ResetCnt(c) == IF Deviation = "resetKeepsCount" THEN c ELSE 0
 (* a one-shot encode on the instance as it is now *)
 OneShot(v) == LET r == IF Deviation = "encodeSkipsReset" THEN <<ecls, erefs>> ELSE ResetEnc(ecls, erefs)
-              IN Render(v, r[1], r[2])
+                  c == IF Deviation = "encodeSkipsReset" THEN ecnt ELSE ResetCnt(ecnt)
+              IN Render(v, r[1], r[2], c)
 
-Init == ecls = {} /\ erefs = {} /\ dcls = {} /\ drefs = {} /\ hist = <<>> /\ fin = FALSE
+Init == ecls = {} /\ erefs = {} /\ ecnt = 0 /\ dcls = {} /\ drefs = {} /\ hist = <<>> /\ fin = FALSE
 
 Log(op, v) == hist' = Append(hist, [op |-> op, v |-> v])
 
 StreamWrite(v) == /\ ecls' = ecls \cup Classes(v) /\ erefs' = erefs \cup Objects(v)
+                  /\ ecnt' = IF ecnt < 6 THEN ecnt + Ordinals(v) ELSE ecnt      \* (bounded for model checking)
                   /\ UNCHANGED <<dcls, drefs>> /\ Log("swrite", v)
 EncodeOk(v) ==    /\ LET r == ResetEnc(ecls, erefs) IN
                      /\ ecls' = r[1] \cup Classes(v) /\ erefs' = r[2] \cup Objects(v)
+                  /\ ecnt' = ResetCnt(ecnt) + Ordinals(v)
                   /\ UNCHANGED <<dcls, drefs>> /\ Log("encode", v)
 (* a failing encode (unsupported element in the middle): tables left partly filled *)
 EncodeFail(v) ==  /\ LET r == ResetEnc(ecls, erefs) IN
                      /\ ecls' \in SUBSET (r[1] \cup Classes(v)) /\ r[1] \subseteq ecls'
                      /\ erefs' \in SUBSET (r[2] \cup Objects(v)) /\ r[2] \subseteq erefs'
+                  /\ ecnt' \in ResetCnt(ecnt)..(ResetCnt(ecnt) + Ordinals(v))
                   /\ UNCHANGED <<dcls, drefs>> /\ Log("encodefail", v)
 StreamRead(v) ==  /\ dcls' = dcls \cup Classes(v) /\ drefs' = drefs \cup Objects(v)
-                  /\ UNCHANGED <<ecls, erefs>> /\ Log("sread", v)
+                  /\ UNCHANGED <<ecls, erefs, ecnt>> /\ Log("sread", v)
 DecodeOk(v) ==    /\ dcls' = Classes(v) /\ drefs' = Objects(v)
-                  /\ UNCHANGED <<ecls, erefs>> /\ Log("decode", v)
+                  /\ UNCHANGED <<ecls, erefs, ecnt>> /\ Log("decode", v)
 DecodeGarbage(v) == /\ dcls' \in SUBSET Classes(v) /\ drefs' \in SUBSET Objects(v)
-                    /\ UNCHANGED <<ecls, erefs>> /\ Log("decodegarbage", v)
+                    /\ UNCHANGED <<ecls, erefs, ecnt>> /\ Log("decodegarbage", v)
 Reset ==          /\ LET r == ResetEnc(ecls, erefs) IN ecls' = r[1] /\ erefs' = r[2]
+                  /\ ecnt' = ResetCnt(ecnt)
                   /\ dcls' = {} /\ drefs' = {} /\ Log("reset", 1)
 
-Stop == hist # <<>> /\ fin' = TRUE /\ UNCHANGED <<ecls, erefs, dcls, drefs, hist>>
+Stop == hist # <<>> /\ fin' = TRUE /\ UNCHANGED <<ecls, erefs, ecnt, dcls, drefs, hist>>
 Next == /\ ~fin
         /\ \/ (/\ Len(hist) < MaxLen /\ fin' = FALSE
                /\ \/ \E v \in Vals : StreamWrite(v) \/ EncodeOk(v) \/ StreamRead(v) \/ DecodeOk(v)
@@ -69,6 +82,6 @@ Spec == Init /\ [][Next]_vars
 (* C11: whatever happened before, a one-shot call equals a fresh instance's *)
 ProbeEqualsFresh == \A v \in Vals : OneShot(v) = Fresh(v)
 
-View == <<ecls, erefs, dcls, drefs, Len(hist), fin>>
+View == <<ecls, erefs, ecnt, dcls, drefs, Len(hist), fin>>
 Emit == fin => PrintT(<<"VEC", ToJson([h |-> hist])>>)
 =====================================================================
